@@ -185,6 +185,11 @@ def getitem(T, tvs, items):
         return strip(v)
     if _contains_union(T):
         raise Skip("positional slicing through a union")
+    if _has_kind(T, ("rec", "tup")) and any(isinstance(x, (int, np.integer)) and not isinstance(x, bool) for x in rest) and \
+            any(isinstance(x, (np.ndarray, list, Jagged)) or (isinstance(x, tuple) and x and x[0] == "bool") for x in rest):
+        # an integer next to an index array is itself advanced (NumPy): the broadcast dimension comes first and the
+        # records are zipped along it; the model slices field by field and leaves this combination undefined
+        raise Skip("records sliced by an integer together with an index array")
     if _option_index_undefined(rest):
         raise Skip("option-type index array combined with other index items (the library calls several of these undefined)")
     lo, hi = array_depth(T)
@@ -199,6 +204,10 @@ def getitem(T, tvs, items):
             consuming += x.ndim
         else:
             consuming += 1
+    if lo != hi and _has_kind(T, ("rec", "tup")) and (consuming > lo or any(x is None for x in rest)):
+        # records whose fields differ in depth: a slice that reaches below the shallowest field (or inserts a new axis)
+        # means something different for each field; the statement does not fix the outcome
+        raise Skip("records with fields of different depth sliced below the shallowest field")
     if any(x is Ellipsis for x in rest):
         if fields:
             raise Skip("ellipsis together with field names (refused for records of different depths)")
